@@ -65,7 +65,8 @@ def unguarded_rows(F, conds, is_word, what):
     path does not contain a failed search of the reserved-word table.  AnalysisBroken when a condition cannot be decided."""
     _g, rows = reserved_rows(F)
     wordonly = [(c, val) for c, val in conds if _find(c, is_word) is not None
-                and _find(c, lambda t: isinstance(t, tuple) and t and t[0] in ('elem', 'noelem', 'found', 'obj', 'global')) is None]
+                and _find(c, lambda t: isinstance(t, tuple) and t and t[0] in ('elem', 'noelem', 'found', 'obj', 'global')) is None
+                and _find(c, lambda t: isinstance(t, tuple) and len(t) >= 4 and t[0] == 'call' and contracts.fn_simple(t[1]) == 'word_if_known') is None]
     passing = []
     for r in rows:
         if r is None:
@@ -109,8 +110,22 @@ def spelling_routes(F, fid, opaque):
             continue
         if not any(e[0] in ('tree_insert',) and e[4] is not None for e in st.effects) and not any(e[0] == 'emplace' for e in st.effects):
             continue        # nothing created on this path
-        searched = [val for c, val in st.conds if isinstance(c, tuple) and len(c) >= 4 and c[0] == 'call' and contracts.fn_simple(c[1]) == 'word_if_known'
-                    and len(c[3]) == 1 and (is_word(c[3][0]))]
+        def search_outcome(c, val):
+            """True / False when the condition says the reserved-word search of the spelling succeeded / failed (the pointer used as
+            a condition, or compared with null either way round)"""
+            def is_search(t):
+                return isinstance(t, tuple) and len(t) >= 4 and t[0] == 'call' and contracts.fn_simple(t[1]) == 'word_if_known' and len(t[3]) == 1 and is_word(t[3][0])
+            if is_search(c):
+                return bool(val)
+            if isinstance(c, tuple) and len(c) == 3 and c[0] == 'un' and c[1] == '!' and is_search(c[2]):
+                return not val
+            if isinstance(c, tuple) and len(c) == 4 and c[0] == 'op' and c[1] in ('==', '!='):
+                a, b = c[2], c[3]
+                null = lambda t: isinstance(t, tuple) and t[:2] == ('k', 0)
+                if (is_search(a) and null(b)) or (is_search(b) and null(a)):
+                    return (not val) if c[1] == '==' else bool(val)
+            return None
+        searched = [r for r in (search_outcome(c, val) for c, val in st.conds) if r is not None]
         if searched and not any(searched):
             res.append((contracts.render_conds(st.conds, st, {})[:160], [], True))
             continue
